@@ -137,6 +137,13 @@ fn registry() -> Vec<CheckDef>
 			case_timeout_ms: 180_000,
 			level_text: "four exhaustive families (operator x type x boundary-operand matrix incl. all comparisons and casts; all control-flow bodies up to a size bound; element type x storage x access path x access mode; every single-gap layout deviation of the data-access programs), each program compiled by the real pipeline, executed with lli and compared on full standard output and exit status with reference semantics",
 		},
+		CheckDef {
+			id: "C08",
+			drive: checks::c08::drive,
+			work: checks::c08::work,
+			case_timeout_ms: 60_000,
+			level_text: "complete enumeration of parameter kind x callee action x caller argument form, whole-aggregate copies, constant assignments and all two-level pass-through combinations; verdicts against the documented mutability rules and, for every accepted program, the non-interference clause checked on the executed program",
+		},
 	]
 }
 
